@@ -206,9 +206,10 @@ class Lexer:
         while self._current() and self._current().isdigit():
             self._advance()
 
-        # Decimal point
+        # Decimal point; the fraction digits are optional ("5.", "1.e3"), so the
+        # point always belongs to a literal that has integer digits
         is_float = False
-        if self._current() == "." and self._peek().isdigit():
+        if self._current() == "." and (self.pos > start or self._peek().isdigit()):
             is_float = True
             self._advance()  # .
             while self._current() and self._current().isdigit():
@@ -259,6 +260,12 @@ class Lexer:
         # Number literals
         if ch.isdigit() or (ch == "." and self._peek().isdigit()):
             value = self._read_number()
+            # "3in x" or "0b12" is no literal followed by another token
+            nxt = self._current()
+            if nxt and (nxt.isalnum() or nxt in "_$"):
+                raise JSSyntaxError(
+                    "Identifier or digit directly after number", line, column
+                )
             return Token(TokenType.NUMBER, value, line, column)
 
         # Identifiers and keywords
